@@ -5,6 +5,7 @@ DISC = ["connect", "discover", "disconnect"]
 
 CORE = {
     "C01": {
+        "approval": True,     # writes that wait for the application's approval: exactly one result each
         "checked": ["out", "panic", "dupout", "rdata", "data"],
         "assumptions": [
             "the datagram is well formed: one command, classifier present, classifier and payload consistent (a result carries resultData, a request does not); the rest belongs to C05",
@@ -32,6 +33,7 @@ CORE = {
         },
     },
     "C09": {
+        "pair_probes": "bind,unbind,entrem,disconnect",     # a registry operation parked mid-way, another peer's operation meanwhile: serial outcome
         "race": True,
         "checked": ["binds", "out", "ev", "ret", "panic", "dupout", "dupev", "ids"],
         "assumptions": [
@@ -104,14 +106,17 @@ CORE = {
             "mc": [{"acts": ["lreq", "addcb", "addrcb", "cbrecv"], "maxlen": 5, "prefix": "PrefixP1", "maxreq": 2}],
             "gen": [{"acts": ["lreq", "addcb", "addrcb", "cbrecv"], "maxlen": 5, "prefix": "PrefixP1", "maxreq": 2},
                     {"acts": ["lreq", "addcb", "cbrecv"], "maxlen": 4, "prefix": "PrefixP1P2", "maxreq": 2},
-                    {"acts": ["lreq", "addcb", "cbrecv"], "tiny": ["cbrecv"], "maxlen": 4, "prefix": "PrefixP1", "maxreq": 2, "view": None}],
+                    {"acts": ["lreq", "addcb", "cbrecv"], "tiny": ["cbrecv"], "maxlen": 4, "prefix": "PrefixP1", "maxreq": 2, "view": None},
+                    # answers out of order: states that differ only in whether callbacks fired before are kept apart (ghost)
+                    {"acts": ["lreq", "addcb", "cbrecv"], "tiny": ["cbrecv"], "maxlen": 6, "prefix": "PrefixP1P2", "maxreq": 2, "ghost": 2}],
             "sim": [{"acts": DISC + ["lreq", "addcb", "addrcb", "cbrecv", "entadd", "setdata"], "maxlen": 25, "num": 300, "maxreq": 3}],
             "cap": 40000,
         },
         "thorough": {
             "mc": [{"acts": ["lreq", "addcb", "addrcb", "cbrecv"], "maxlen": 6, "prefix": "PrefixP1P2", "maxreq": 2}],
             "gen": [{"acts": ["lreq", "addcb", "addrcb", "cbrecv"], "maxlen": 6, "prefix": "PrefixP1", "maxreq": 2},
-                    {"acts": ["lreq", "addcb", "addrcb", "cbrecv"], "maxlen": 5, "prefix": "PrefixP1P2", "maxreq": 2}],
+                    {"acts": ["lreq", "addcb", "addrcb", "cbrecv"], "maxlen": 5, "prefix": "PrefixP1P2", "maxreq": 2},
+                    {"acts": ["lreq", "addcb", "addrcb", "cbrecv"], "maxlen": 7, "prefix": "PrefixP1P2", "maxreq": 2, "ghost": 3}],
             "sim": [{"acts": DISC + ["lreq", "addcb", "addrcb", "cbrecv", "entadd", "setdata", "recv"], "maxlen": 40, "num": 3000, "maxreq": 3}],
             "cap": 400000,
         },
@@ -143,6 +148,7 @@ CORE = {
         },
     },
     "C08": {
+        "pair_probes": "sub,unsub,entrem,disconnect",     # a registry operation parked mid-way, another peer's operation meanwhile: serial outcome
         "checked": ["subs", "out", "ev", "ret", "panic", "dupout", "dupev", "ids"],
         "assumptions": [
             "peers announce distinct device addresses and use identical entity/feature numbering",
@@ -209,6 +215,7 @@ CORE = {
         },
     },
     "C03": {
+        "pair_probes": "bind,unbind,entrem,disconnect",     # a registry operation parked mid-way, another peer's operation meanwhile: serial outcome
         "checked": ["data", "out", "ev", "ret", "panic", "dupout", "dupev"],
         "assumptions": [
             "the writer is an announced feature of a connected peer or an unannounced address of a connected peer (then the write is dropped)",
